@@ -1,4 +1,4 @@
 #!/bin/sh
 # tools/trymut.sh <property> <file-in-repo> <sed-expression> : apply a sed mutation to /repo, run the check, revert
 P=$1; F=$2; E=$3
-cd /repo && cp "$F" /tmp/trymut.bak && sed -i "$E" "$F" && (git diff --stat | tail -1) && cd /verif && ./check $P | grep -E "VIOLATION|UNDECIDED|CHECKER|^$P" | cut -c1-220; cp /tmp/trymut.bak /repo/$F; cd /repo && git status --short | grep -v workflow.py
+cd /repo && cp "$F" /tmp/trymut.bak && sed -i "$E" "$F" && (git diff --stat | tail -1) && cd /verif && PVC_EVIDENCE_DIR=/verif/.work/seed-evidence ./check $P | grep -E "VIOLATION|UNDECIDED|CHECKER|^$P" | cut -c1-220; cp /tmp/trymut.bak /repo/$F; cd /repo && git status --short | grep -v workflow.py
